@@ -1854,10 +1854,12 @@ ENTRIES = {
 from props import c19_hist as H          # noqa: E402  (helper modules; they use the helpers above)
 from props import c19_long as L          # noqa: E402
 from props import c19_multi as M         # noqa: E402
+from props import c19_float as FL        # noqa: E402
 ENTRIES["multi"] = dict(gen=None, impl=M.impl, cmp=M.compare, tally=M.tally, shrink=M.shrink,
                         classify=M.classify, request=M.request)
 ENTRIES["tl_hist"] = dict(gen=H.generate, impl=H.impl, cmp=H.compare, tally=H.tally, shrink=H.shrink,
                           classify=H.classify, request=H.request)
+ENTRIES.update(FL.ENTRIES)               # the float regime, bit for bit (entries *_float)
 GEN_OF = {}          # entry -> the entry whose generator makes it
 for _alias, _of in (("table_getitem", "table_call"), ("fadein", "line"), ("fadeout", "line"), ("zeros", "ones"), ("zeroes", "ones"),
                     ("impulse", "ones"), ("attack", "adsr"), ("gauss_noise", "white_noise")):
